@@ -8,7 +8,11 @@ the REAL NMEASentenceFactory.produce (and a shadow TagBlockQueue when a tbq is a
 the model's inputs, the extracted stream_step/queue_step run on them, and the deliveries (every attribute, as text tokens),
 the escaping exception class and -- for NMEAQueue -- the final buffer and pending wrapper are compared with the real reader.
 
-Oracles (property vs implementation) use the extracted Spec/AssembleSpec.v on the harness's own knowledge of the lines."""
+Oracles (property vs implementation) use the extracted Spec/AssembleSpec.v on the harness's own knowledge of the lines.
+
+Backpressure (section "bounded NMEAQueue"): the same lines into NMEAQueue(maxsize=k) with non-blocking puts and a consumer that
+takes items at given moments; correspondence with the extracted queue_step_b (asm_run_b), oracle from Proofs/AssembleBounded.v:
+what comes out is what the unbounded reference delivers at the lines whose put was accepted, queue.Full exactly at the others."""
 import io
 import itertools
 import os
@@ -830,7 +834,7 @@ C07_KEYS = ('raw', 'payload', 'bits', 'valid', 'wrapper', 'tag')
 def oracle_c07(results):
     """results: {front-end name: res}.  Pairwise equality of the delivered sequences, against the first front-end."""
     bad = []
-    names = list(results)
+    names = [n for n in results if not n.startswith(BOUNDED)]
     ref = names[0]
     for name in names[1:]:
         a, b = results[ref], results[name]
@@ -883,13 +887,336 @@ def oracle_decode(seq, res, name):
     return bad
 
 
+# ------------------------------------------------------------------------------------------------ bounded NMEAQueue (backpressure)
+#
+# NMEAQueue(maxsize=k) fed with put_line(line, block=False) (or a short timeout) by a producer that catches queue.Full and goes
+# on with the next line -- it never offers a refused line again --, and a consumer that takes items out at given moments.
+# Model: queue_step_b / bq_run (Model/Assemble.v; command asm_run_b), which gets per line whether the queue had room -- the
+# capacity arithmetic (k, the consumer) is the environment's.  Oracle: Proofs/AssembleBounded.v bq_schedule_correct -- what
+# comes out of the bounded queue is, line by line, what the unbounded reference delivers at the lines whose put was accepted,
+# queue.Full is raised exactly at the others where a message is due, nothing is left behind in the slot table.
+
+BOUNDED = 'NMEAQueue/bounded'
+RULE_BOUNDED = ('; wherever NMEAQueue is among the front-ends the same lines also go into NMEAQueue(maxsize=k), k in 1..3, with '
+                'put_line(line, block=False) (one run in ten: block=True with a 0.2 ms timeout), queue.Full caught per line and the line '
+                'NOT offered again, and a consumer that calls get_or_none() at given moments: k = 1 with the queue emptied right after '
+                'every refused message (two phases) and PRNG-drawn (k, takes per line) pairs derived from the case; a bounded case = '
+                '(k, put mode, consumer schedule, tbq, terminator, line list)')
+ASSUMPTION_BOUNDED = ('bounded NMEAQueue: queue_step_b takes, per line, whether the final put would be accepted; the harness supplies '
+                      '"qsize() < maxsize right before the call" (queue.Queue\'s own capacity arithmetic and the consumer are the '
+                      'environment of the model, not part of it), so the theorems hold for every capacity and every consumer; a '
+                      'refused line is never offered again (a repeated last fragment is a stale fragment, outside the well-formed '
+                      'schedules)')
+
+
+def bounded_random_params(lines, term, tbq, variant):
+    """k, put mode and the consumer's schedule (takes[i] = number of get attempts right before line i; everything is
+    taken out after the last line), derived from the case alone."""
+    import random as _random
+    import zlib
+    r = _random.Random(zlib.crc32(b'\n'.join(lines) + b'|' + term + bytes([1 if tbq else 0, variant])))
+    k = r.choice([1, 1, 2, 3])
+    p = r.choice([0.05, 0.15, 0.3, 0.6])
+    takes = [(r.choice([1, 1, 2, 3]) if r.random() < p else 0) for _ in lines]
+    return {'k': k, 'mode': 'timeout' if r.random() < 0.1 else 'nonblock', 'takes': takes, 'how': 'random'}
+
+
+def bounded_directed_params(delivers, phase):
+    """k = 1 and a consumer that empties the queue right after every refused message (delivers[i] = a message is due at line
+    i): messages are accepted and refused alternately, and the lines that follow a refused message -- the next message of
+    its slot among them -- find room in the queue."""
+    takes = [0] * len(delivers)
+    filled, seen = False, 0
+    for i, d in enumerate(delivers):
+        if not d:
+            continue
+        seen += 1
+        if filled:                      # this one is refused; the consumer empties the queue before the next line
+            if i + 1 < len(takes):
+                takes[i + 1] = 1
+            filled = False
+        else:
+            filled = True
+            if phase == 1 and seen == 1 and i + 1 < len(takes):
+                takes[i + 1] = 1        # the other phase: take the first message at once
+                filled = False
+    return {'k': 1, 'mode': 'nonblock', 'takes': takes, 'how': 'directed%d' % phase}
+
+
+def run_bounded(raw_lines, tbq, params, conv=None):
+    """-> res like run_frontend plus 'full' (queue.Full raised by the call for line i) and 'room' (the queue had a free
+    place when line i was offered).  A taken item is attributed to the line whose call put it (FIFO)."""
+    import queue as _queue
+    import pyais.stream as ps
+    from pyais.queue import NMEAQueue
+    conv = conv or (lambda s: (tok_delivered(s), attrs(s), s))
+    q = ps.TagBlockQueue() if tbq else None
+    n = len(raw_lines)
+    nq = NMEAQueue(maxsize=params['k'], tbq=q)
+    per, flat, exc = [[] for _ in range(n)], [], None
+    full, room, owners, unowned = [False] * n, [True] * n, [], []
+
+    def take():
+        s = nq.get_or_none()
+        if s is None:
+            return False
+        c = conv(s)
+        flat.append(c)
+        if owners:
+            per[owners.pop(0)].append(c)
+        else:
+            unowned.append(c)
+        return True
+    for i, line in enumerate(raw_lines):
+        for _ in range(params['takes'][i] if i < len(params['takes']) else 0):
+            take()
+        before = nq.qsize()
+        room[i] = before < params['k']
+        try:
+            if params['mode'] == 'timeout':
+                nq.put_line(line, True, 0.0002)
+            else:
+                nq.put_line(line, block=False)
+        except _queue.Full:
+            full[i] = True
+        except Exception as e:   # noqa: BLE001
+            exc = type(e).__name__
+            break
+        owners.extend([i] * max(0, nq.qsize() - before))
+    while take():
+        pass
+    state = None
+    if exc is None:
+        cells = []
+        for (seq, chan), arr in nq.buffer.items():
+            cs = ','.join('%d=%s' % (i, hx(a.raw)) for i, a in enumerate(arr) if a is not None)
+            cells.append('[%d;%s;%d;%s]' % (seq, cps(chan), len(arr), cs))
+        state = 'B' + ''.join(cells) + 'W' + ('N' if nq.last_wrapper is None else tok_gatehouse_obj(nq.last_wrapper))
+    return {'per': per, 'flat': flat, 'exc': exc, 'state': state, 'full': full, 'room': room, 'unowned': unowned}
+
+
+def correspond_bounded(ctx, raw_lines, tbq, res, case, strip_wrapper=False):
+    """Extracted bq_run queue_step_b, given the real parser's outcomes and per line whether the queue had room, against the
+    bounded NMEAQueue: per line nothing / the sentence put / queue.Full, the escaping exception, final buffer and wrapper."""
+    rep, model = ctx.rep, ctx.model
+    toks = parse_outcomes(raw_lines, tbq)
+    puts = ''.join('O' if r else 'F' for r in res['room'])
+    reply = model.ask('asm_run_b %s %s' % (puts, ' '.join(toks))) if toks else ' # Ok BWN'
+    if reply.startswith('ERROR'):
+        raise RuntimeError(reply + ' for ' + ' '.join(toks)[:300])
+    outs, fin = reply.split(' # ')
+    cut = (lambda t: t.split('@')[0]) if strip_wrapper else (lambda t: t)
+    m_per = [([] if o == '=' else [cut(o[1:])]) for o in outs.split('|')] if outs else []
+    if strip_wrapper and fin.startswith('Ok '):
+        fin = fin.split('W')[0]
+    m_exc = fin[6:] if fin.startswith('Raise ') else None
+    i_per = [(['!Full'] if f else []) + [cut(c[0]) for c in x] for f, x in zip(res['full'], res['per'])]
+    i_state = None if res['state'] is None else (res['state'].split('W')[0] if strip_wrapper else res['state'])
+    ok = m_exc == res['exc'] and not res['unowned']
+    if ok and m_exc is None:
+        ok = m_per == i_per and fin == 'Ok ' + i_state
+    elif ok:
+        ok = m_per == i_per[:len(m_per)] and not any(i_per[len(m_per):])
+    if not ok:
+        rep.disagree('H-stream/' + BOUNDED, case, {'puts': puts, 'per_line': m_per, 'end': fin[:400]},
+                     {'per_line': i_per, 'end': res['exc'] or ('Ok ' + (i_state or ''))[:400],
+                      'unattributed': [c[0] for c in res['unowned']][:3]})
+    return ok
+
+
+def whose_fragments(seq, raw_hex):
+    """The lines of a delivered raw text, each as 'fragment n/c of message m' by the harness's own record of the sequence."""
+    by_raw = {}
+    for d in seq:
+        if d['kind'] == 'frag':
+            by_raw.setdefault(d['raw'], []).append(d)
+    parts, msgs = [], set()
+    for piece in bytes.fromhex(raw_hex).split(b'\n'):
+        ds = by_raw.get(piece.hex())
+        if not ds:
+            parts.append('an unknown line')
+            msgs.add(None)
+        else:
+            parts.append('fragment %d/%d of message %s' % (ds[0]['num'], ds[0]['cnt'], '/'.join(sorted({str(x['msg']) for x in ds}))))
+            msgs.add(frozenset(x['msg'] for x in ds))
+    if None in msgs:
+        mixed = len(msgs) > 1
+    else:
+        mixed = not frozenset.intersection(*msgs)       # no message that all its lines belong to
+    return ' + '.join(parts), mixed
+
+
+def expected_rest(seq, spec_per):
+    """What the reader must still hold after the sequence, by the harness's own record: slot -> {cell: raw} of the messages that
+    are not complete, and the wrapper line that no delivery has consumed."""
+    live, pending = {}, None
+    for d, due in zip(seq, spec_per):
+        if d['kind'] == 'wrapper':
+            pending = d
+        if d['kind'] == 'frag' and not (d['cnt'] == 1 and d['seq'] in (None, 0)):
+            slot = (-1 if d['seq'] is None else d['seq'], cps(d['chan']))
+            cells = live.setdefault((slot, d['msg']), {})
+            cells[d['num'] - 1] = d['raw']
+        if due:
+            pending = None
+            if d['kind'] == 'frag':
+                live = {k: v for k, v in live.items() if k[1] != d['msg']}
+    return {slot: cells for (slot, _), cells in live.items()}, pending
+
+
+def parse_state(state):
+    import re
+    buf, w = state[1:].split('W', 1)
+    slots = {}
+    for m in re.finditer(r'\[(-?\d+);([^;\]]*);(\d+);([^\]]*)\]', buf):
+        cells = {}
+        for c in (m.group(4).split(',') if m.group(4) else []):
+            i, raw = c.split('=')
+            cells[int(i)] = '' if raw == '-' else raw
+        slots[(int(m.group(1)), m.group(2))] = cells
+    return slots, wrapper_fields_of_token(w)
+
+
+def oracle_bounded(seq, spec_per, want_w, res, want, ref=None, ref_name=None):
+    """-> list of (component, kind, text).  spec_per / want_w = the messages and their wrappers the unbounded reference delivers
+    per line (Spec/AssembleSpec.v on the harness's own description of the lines); ref = the per-line deliveries of another
+    front-end (C07's differential clause).  C03 looks at what is delivered where and at the slot table, C18 at the wrappers,
+    C07 at both."""
+    bad = []
+    if any(len(x) > 1 for x in spec_per):
+        return bad
+    if res['exc'] is not None:
+        return [('exception', 'foreign-exception:' + res['exc'], f'{BOUNDED} raised {res["exc"]} on a well-formed schedule')]
+    deliveries = 'C03' in want or 'C07' in want
+    wrappers = 'C18' in want or 'C07' in want
+    keys = C03_KEYS if 'C03' in want else (('raw', 'payload', 'bits', 'valid') if 'C07' in want else ())
+    seen_raw = set()
+    for i, (due, got, full) in enumerate(zip(spec_per, res['per'], res['full'])):
+        got = [c[1] for c in got]
+        kind_i = seq[i]['kind']
+        if full and not due and (deliveries or kind_i == 'wrapper'):
+            if not any(b[0] == 'queue.Full' for b in bad):
+                bad.append(('queue.Full', 'refused-without-delivery',
+                            f'{BOUNDED}: queue.Full raised for line {i} ({kind_i} line), a line that puts nothing on the queue'
+                            + (': the wrapper is lost' if kind_i == 'wrapper' else '')))
+            continue            # (go on: what the refused line costs later -- a message without its wrapper, a lost message -- is a finding of its own)
+        if deliveries:
+            if got and not due:
+                what, mixed = whose_fragments(seq, got[0]['raw'])
+                k = 'mixed-fragments' if mixed else ('duplicated' if got[0]['raw'] in seen_raw else 'spurious-or-early')
+                bad.append(('delivery', k, f'{BOUNDED}: line {i} ({kind_i}) puts a message on the queue although no message is due '
+                                           f'there: {what}' + (' -- fragments of different messages in one delivery' if mixed else '')))
+                break
+            if len(got) > 1:
+                bad.append(('delivery', 'duplicated-or-spurious', f'{BOUNDED}: line {i} puts {len(got)} messages on the queue'))
+                break
+            if due and not got and not full:
+                bad.append(('delivery', 'lost', f'{BOUNDED}: the message due at line {i} never comes out of the queue although '
+                                                'queue.Full was not raised for that line'))
+                break
+            if full and got:
+                bad.append(('queue.Full', 'raised-and-delivered', f'{BOUNDED}: line {i}: queue.Full was raised AND a message was put'))
+                break
+            if full and res['room'][i]:
+                bad.append(('queue.Full', 'raised-with-room', f'{BOUNDED}: queue.Full raised for line {i} while the queue had a free place'))
+                break
+        if len(got) == 1 and due:
+            seen_raw.add(got[0]['raw'])
+            wrong = [k for k in keys if due[0][k] != got[0][k]]
+            if wrong:
+                k = wrong[0]
+                what, mixed = whose_fragments(seq, got[0]['raw'])
+                bad.append((k, 'mixed-fragments' if mixed else 'wrong-value',
+                            f'{BOUNDED}: the message put at line {i} has {k} = {str(got[0][k])[:80]!r}, the unbounded reference delivers '
+                            f'{str(due[0][k])[:80]!r} there; it consists of {what}'))
+                break
+            if wrappers and want_w[i] and want_w[i][0] != got[0]['wrapper']:
+                g, w = got[0]['wrapper'], want_w[i][0]
+                bad.append(('wrapper_msg', 'lost' if g is None else ('stale-or-unexpected' if w is None else 'wrong-value'),
+                            f'{BOUNDED}: the message put at line {i} carries wrapper {g}, the unbounded reference delivers it with {w}'))
+                break
+            if ref is not None and i < len(ref) and len(ref[i]) == 1:
+                diff = [k for k in C07_KEYS if ref[i][0][1][k] != got[0][k]]
+                if diff:
+                    bad.append((diff[0], 'wrong-value', f'{BOUNDED}: the message put at line {i} has {diff[0]} = {str(got[0][diff[0]])[:80]!r}, '
+                                                        f'{ref_name} delivers it with {str(ref[i][0][1][diff[0]])[:80]!r}'))
+                    break
+    if res['state'] is not None:
+        exp_slots, exp_pending = expected_rest(seq, spec_per)
+        got_slots, got_pending = parse_state(res['state'])
+        if deliveries and exp_slots != got_slots:
+            extra = sorted(set(got_slots) - set(exp_slots))
+            refused = [i for i, (due, f) in enumerate(zip(spec_per, res['full'])) if due and f]
+            show = lambda t: {k: sorted(v) for k, v in t.items()}   # noqa: E731
+            bad.append(('buffer', 'stale-fragments' if extra else 'wrong-value',
+                        f'{BOUNDED}: after the last line the slot table holds cells {show(got_slots)}, the fragments of the incomplete '
+                        f'messages are {show(exp_slots)} (messages refused with queue.Full at lines {refused})'))
+        if wrappers:
+            e = None if exp_pending is None else (tuple(exp_pending['fields'][0]),) + tuple(exp_pending['fields'][1:])
+            if e != got_pending:
+                bad.append(('last_wrapper', 'lost' if got_pending is None else 'stale-or-unexpected',
+                            f'{BOUNDED}: after the last line the pending wrapper is {got_pending}, the wrapper lines not consumed by a '
+                            f'delivery give {e}'))
+    return bad
+
+
+def run_bounded_case(ctx, seq, label, lines, term, tbq, want, scoped, spec_per, results, frontends, previous, only=None):
+    """The bounded front-end for one sequence: directed and PRNG-drawn (k, consumer) pairs, or exactly `only` (a replay)."""
+    rep = ctx.rep
+    raw_lines = lines_for('NMEAQueue', lines, term)
+    if only is not None:
+        variants = [only]
+    else:
+        guide = [len(x) > 0 for x in (spec_per if spec_per is not None else (results['NMEAQueue']['per'] or []))]
+        guide += [False] * (len(lines) - len(guide))
+        rich = label.split(':')[0] in ('boundary', 'sequential', 'many-in-flight', 'many-incomplete-then-wrapper')
+        variants = [bounded_directed_params(guide, 0), bounded_random_params(lines, term, tbq, 0)]
+        if rich:
+            variants += [bounded_directed_params(guide, 1), bounded_random_params(lines, term, tbq, 1)]
+    ref_name = frontends[0] if frontends[0] != 'NMEAQueue' or len(frontends) == 1 else frontends[1]
+    ref = results.get(ref_name, {}).get('per') if 'C07' in want else None
+    want_w = None
+    if scoped and ctx.model is not None and spec_per is not None and not any(len(x) > 1 for x in spec_per):
+        want_w = [[None if w is None else (tuple(w[0]), w[1], w[2], w[3], w[4]) for w in x]
+                  for x in spec_wrappers(ctx.model, delivery_events(seq, [len(x) > 0 for x in spec_per]))]
+    for params in variants:
+        res = run_bounded(raw_lines, tbq, params)
+        results[BOUNDED + ':' + params['how']] = res
+        rep.case((BOUNDED, params['k'], params['mode'], tuple(params['takes']), tbq, term, tuple(d['hex'] for d in seq)),
+                 kind='frontend:' + BOUNDED)
+        rep.count('bounded:runs')
+        rep.count('bounded:queue.Full raised', sum(res['full']))
+        case = {'label': label, 'term': term.hex(), 'tbq': tbq, 'lines': [d['hex'] for d in seq], 'frontend': BOUNDED, 'bounded': params}
+        if ctx.model is not None:
+            correspond_bounded(ctx, raw_lines, tbq, res, case, strip_wrapper=(tuple(want) == ('C03',)))
+        if not scoped or ctx.model is None or spec_per is None:
+            continue
+        # (counted from the harness's own view -- a message is due and the queue has no room --, not from what the implementation did)
+        refused = [i for i, (due, r) in enumerate(zip(spec_per, res['room'])) if due and not r]
+        rep.count('bounded:messages refused', len(refused))
+        rep.count('bounded:assembled messages refused', sum(1 for i in refused if seq[i]['cnt'] > 1))
+        rep.count('bounded:wrapped messages refused',
+                  sum(1 for i in refused if any(d['kind'] == 'wrapper' for d in seq[max(0, i - 2):i])))
+        slots_refused = {(seq[i]['seq'], seq[i]['chan']): i for i in refused if seq[i]['cnt'] > 1}
+        if any(d['kind'] == 'frag' and d['cnt'] > 1 and slots_refused.get((d['seq'], d['chan']), len(seq)) < j
+               for j, d in enumerate(seq)):
+            rep.count('bounded:runs in which a slot is used again after its message was refused')
+        replay = {'seq': seq, 'term': term.hex(), 'tbq': tbq, 'label': label, 'previous': previous, 'frontend': BOUNDED,
+                  'bounded': params}
+        if 'C07' in want:
+            replay['reference'] = ref_name
+        for comp, kind, text in oracle_bounded(seq, spec_per, want_w, res, want, ref=ref, ref_name=ref_name):
+            rep.violation({'entry': BOUNDED, 'component': comp, 'kind': kind}, f'{text} [{label}; maxsize={params["k"]}, '
+                          f'{params["mode"]} puts, consumer {params["how"]}]', replay)
+
+
 # ------------------------------------------------------------------------------------------------ one case, all front-ends
 
 _PREVIOUS = {}
 
 
 def run_case(ctx, seq, label, term=b'', tbq=False, frontends=None, cache=None, tmpdir=None, want=('C03', 'C07', 'C18'),
-             scoped=None, stops=None):
+             scoped=None, stops=None, bounded=None):
     """Run one sequence through the front-ends; correspondence always, the oracles of `want` when the sequence is inside
     the properties' quantifier.  Returns {front-end: res}."""
     rep = ctx.rep
@@ -949,6 +1276,10 @@ def run_case(ctx, seq, label, term=b'', tbq=False, frontends=None, cache=None, t
             res2['per'] = None
             results['SocketStream/chunked'] = res2
             rep.case(('SocketStream/chunked', tbq, term, tuple(case['lines'])), kind='frontend:SocketStream/chunked')
+    if 'NMEAQueue' in frontends and bounded is not False:
+        # the same lines into a BOUNDED queue whose puts may be refused (backpressure; bounded = the recorded k / consumer of a replay)
+        run_bounded_case(ctx, seq, label, lines, term, tbq, want, scoped and not pairwise_only, spec_per, results, frontends,
+                         previous, only=bounded)
     if label.startswith('sequential') and 'ByteStream' in frontends and set(want) & {'C03', 'C07'}:
         # iteration interrupted after every delivered message and resumed (`for ... break`, again `for ...`): the readers are
         # at rest at those points, so the deliveries must be the same as for uninterrupted iteration
@@ -1137,6 +1468,13 @@ def run_generated(ctx, want, n_random, n_out, frontends=None, deadline=None):
             for key in ('sequences-with-wrapped-assembled-delivery', 'sequences-with-several-slots'):
                 if rep.dist.get(key, 0) < 0.05 * n_seq:
                     rep.internal(f'generator self-check: {key} in only {rep.dist.get(key, 0)} of {n_seq} sequences')
+        if n_seq >= 100 and 'NMEAQueue' in (frontends or FRONTENDS) and ctx.model is not None:
+            # the bounded front-end must really exert backpressure: refused assembled messages, refused wrapped messages, and a
+            # slot used again after its message was refused (the only place where a message kept in its slot would show)
+            for key, least in (('bounded:assembled messages refused', 0.5 * n_seq), ('bounded:wrapped messages refused', 0.1 * n_seq),
+                               ('bounded:runs in which a slot is used again after its message was refused', 5)):
+                if rep.dist.get(key, 0) < least:
+                    rep.internal(f'generator self-check: {key} = {rep.dist.get(key, 0)} (at least {least:.0f} expected for {n_seq} sequences)')
     finally:
         shutil.rmtree(tmpdir, ignore_errors=True)
 
@@ -1195,7 +1533,9 @@ def small_scope(ctx, want, shapes, frontends, with_wrappers=True, limit=None, de
                     cache.clear()
             if full:
                 rep.exhaustive.append(f'all {n_orders} arrival orders of messages with fragment counts {shape} through '
-                                      + '/'.join(frontends))
+                                      + '/'.join(frontends)
+                                      + (' (each order also into the bounded NMEAQueue, k = 1 with the directed consumer and one '
+                                         'PRNG-drawn (k, consumer) pair)' if 'NMEAQueue' in frontends else ''))
             else:
                 rep.count(f'sampled-orders:{shape}', limit)
     finally:
@@ -1275,6 +1615,12 @@ def replay_case(ctx, data, want):
         if data.get('reference'):
             fes = [data['reference'], data['frontend']]
         label = data.get('label') or 'replay'     # (the label decides which oracles apply: 'pairwise-only:...', 'sequential')
+        bounded = False
+        if data['frontend'] == BOUNDED:
+            # the bounded queue with the recorded capacity and consumer schedule (run_case derives it from 'NMEAQueue')
+            bounded = data.get('bounded')
+            fes = [f for f in fes if f != BOUNDED]
+            fes = fes + ['NMEAQueue'] if 'NMEAQueue' not in fes else fes
         if any('/' in f for f in fes):
             # a derived front-end (ByteStream/resumed, <reader>/polled, SocketStream/chunked): run_case derives them from the
             # plain ones of a 'sequential' case
@@ -1285,7 +1631,7 @@ def replay_case(ctx, data, want):
         def once():
             before = len(ctx.rep.violations)
             run_case(ctx, data['seq'], label, term=bytes.fromhex(data['term']), tbq=data['tbq'], frontends=fes, tmpdir=tmpdir,
-                     want=want, stops=data.get('stops'))
+                     want=want, stops=data.get('stops'), bounded=bounded)
             new = ctx.rep.violations[before:]
             same = [v for v in new if v['signature'].get('entry') == data['frontend']]
             return (same or new)[0]['what'] if new else None
